@@ -242,11 +242,17 @@ pub struct IoMode {
     /// AsyncRead implementations; legal, and visible to adapters that confuse the two cursors
     #[serde(default)]
     pub overinit: bool,
+    /// the writer's side holds what it is given (up to 16 KiB) until it is flushed - a buffered
+    /// transport (BufWriter around the socket, a record layer): an adapter that swallows
+    /// `poll_flush` leaves the peer without the bytes. Never drawn by `draw()`: only for
+    /// endpoints whose user is known to flush.
+    #[serde(default)]
+    pub lazy_flush: bool,
 }
 
 impl IoMode {
     pub fn plain() -> Self {
-        IoMode { chunk: Chunk::Whole, pending_pct: 0, delay_pct: 0, max_delay_ms: 0, vectored: true, cap: 64 * 1024, overinit: false }
+        IoMode { chunk: Chunk::Whole, pending_pct: 0, delay_pct: 0, max_delay_ms: 0, vectored: true, cap: 64 * 1024, overinit: false, lazy_flush: false }
     }
     pub fn draw(r: &mut Rng) -> Self {
         IoMode {
@@ -257,6 +263,7 @@ impl IoMode {
             vectored: r.bool(),
             cap: *r.pick(&[1usize, 2, 7, 64, 1024, 65536]),
             overinit: r.chance(1, 3),
+            lazy_flush: false,
         }
     }
     /// For connections that carry HTTP/2 or TLS: both need room in both directions at once
@@ -420,7 +427,11 @@ pub struct SimStream {
     pub tx: PipeRef,
     delay_r: Option<(Pin<Box<tokio::time::Sleep>>, u32)>,
     delay_w: Option<(Pin<Box<tokio::time::Sleep>>, u32)>,
+    /// bytes accepted but not yet handed to the pipe (mode.lazy_flush)
+    wbuf: Vec<u8>,
 }
+
+const LAZY_CAP: usize = 16 * 1024;
 
 impl std::fmt::Debug for SimStream {
     fn fmt(&self, f: &mut std::fmt::Formatter<'_>) -> std::fmt::Result {
@@ -433,8 +444,8 @@ pub fn pair(seed: u64, id: u32, a2b: IoMode, b2a: IoMode, fault_a2b: Option<Pipe
     let p_ab = Pipe::new(seed, &format!("net/conn{}/a2b", id), a2b, fault_a2b);
     let p_ba = Pipe::new(seed, &format!("net/conn{}/b2a", id), b2a, fault_b2a);
     (
-        SimStream { id, rx: p_ba.clone(), tx: p_ab.clone(), delay_r: None, delay_w: None },
-        SimStream { id, rx: p_ab, tx: p_ba, delay_r: None, delay_w: None },
+        SimStream { id, rx: p_ba.clone(), tx: p_ab.clone(), delay_r: None, delay_w: None, wbuf: vec![] },
+        SimStream { id, rx: p_ab, tx: p_ba, delay_r: None, delay_w: None, wbuf: vec![] },
     )
 }
 
@@ -639,13 +650,51 @@ impl SimStream {
     }
 }
 
+impl SimStream {
+    /// Hand everything held back (lazy_flush) to the pipe.
+    fn drain_wbuf(&mut self, cx: &mut Context<'_>) -> Poll<io::Result<()>> {
+        while !self.wbuf.is_empty() {
+            let held = std::mem::take(&mut self.wbuf);
+            let r = self.write_some(cx, &[&held[..]], false);
+            match r {
+                Poll::Ready(Ok(n)) => self.wbuf = held[n..].to_vec(),
+                Poll::Ready(Err(e)) => {
+                    self.wbuf = held;
+                    return Poll::Ready(Err(e));
+                }
+                Poll::Pending => {
+                    self.wbuf = held;
+                    return Poll::Pending;
+                }
+            }
+        }
+        Poll::Ready(Ok(()))
+    }
+}
+
 impl AsyncWrite for SimStream {
     fn poll_write(mut self: Pin<&mut Self>, cx: &mut Context<'_>, buf: &[u8]) -> Poll<io::Result<usize>> {
+        if self.tx.lock().mode.lazy_flush {
+            if self.wbuf.len() + buf.len() > LAZY_CAP {
+                // a full buffer goes out first, as BufWriter's does
+                match self.drain_wbuf(cx) {
+                    Poll::Ready(Ok(())) => {}
+                    other => return other.map(|r| r.map(|_| 0)),
+                }
+            }
+            let n = buf.len().min(LAZY_CAP);
+            self.wbuf.extend_from_slice(&buf[..n]);
+            return Poll::Ready(Ok(n));
+        }
         self.write_some(cx, &[buf], false)
     }
 
     fn poll_write_vectored(mut self: Pin<&mut Self>, cx: &mut Context<'_>, bufs: &[io::IoSlice<'_>]) -> Poll<io::Result<usize>> {
         let slices: Vec<&[u8]> = bufs.iter().map(|b| &**b).collect();
+        if self.tx.lock().mode.lazy_flush {
+            let first = slices.iter().find(|b| !b.is_empty()).copied().unwrap_or(&[]);
+            return self.poll_write(cx, first);
+        }
         if self.tx.lock().mode.vectored {
             self.write_some(cx, &slices, true)
         } else {
@@ -659,7 +708,13 @@ impl AsyncWrite for SimStream {
         self.tx.lock().mode.vectored
     }
 
-    fn poll_flush(self: Pin<&mut Self>, _cx: &mut Context<'_>) -> Poll<io::Result<()>> {
+    fn poll_flush(mut self: Pin<&mut Self>, cx: &mut Context<'_>) -> Poll<io::Result<()>> {
+        if !self.wbuf.is_empty() {
+            match self.drain_wbuf(cx) {
+                Poll::Ready(Ok(())) => {}
+                other => return other,
+            }
+        }
         let p = self.tx.lock();
         if p.reset {
             return Poll::Ready(Err(io::ErrorKind::BrokenPipe.into()));
@@ -667,7 +722,13 @@ impl AsyncWrite for SimStream {
         Poll::Ready(Ok(()))
     }
 
-    fn poll_shutdown(self: Pin<&mut Self>, _cx: &mut Context<'_>) -> Poll<io::Result<()>> {
+    fn poll_shutdown(mut self: Pin<&mut Self>, cx: &mut Context<'_>) -> Poll<io::Result<()>> {
+        if !self.wbuf.is_empty() {
+            match self.drain_wbuf(cx) {
+                Poll::Ready(Ok(())) => {}
+                other => return other,
+            }
+        }
         let mut p = self.tx.lock();
         if !p.stalled {
             p.eof = true;
